@@ -198,6 +198,10 @@ type poolCase struct {
 	Env     envT   `json:"env"`
 	Callers int    `json:"callers"`
 	Rounds  int    `json:"rounds"`
+	// a decorated script (deco.go): its five wire fields; Counter = it keeps a per-VM call counter
+	DS      []string `json:"ds_wire,omitempty"`
+	Counter bool     `json:"counter,omitempty"`
+	tree    *tree
 }
 
 func isASCII(s string) bool {
@@ -575,8 +579,10 @@ func checkProxies(ctx *core.Ctx, c proxiesCase) {
 
 const childEnv = "FWDCHECK_C14_POOL_CHILD"
 
+// poolResult.PoolLoad: the single resolver loaded the script, the pool did not.
 type poolResult struct {
 	LoadErr    string   `json:"load_err,omitempty"`
+	PoolLoad   string   `json:"pool_load_err,omitempty"`
 	Sequential []string `json:"sequential"` // one resolver, one request at a time
 	PoolSingle []string `json:"pool_single"`
 	// Concurrent[i] = distinct answers callers got for request i (more than one = they differ)
@@ -617,7 +623,7 @@ func runPool(c poolCase) poolResult {
 	}
 	pool, err := pac.NewProxyResolverPool(c.Env.config(c.Script), nil)
 	if err != nil {
-		res.LoadErr = canonLoadErr(err)
+		res.PoolLoad = canonLoadErr(err)
 		return res
 	}
 	for i, q := range c.Reqs {
@@ -681,7 +687,7 @@ func checkPool(ctx *core.Ctx, c poolCase) {
 	var out, errb bytes.Buffer
 	cmd.Stdout, cmd.Stderr = &out, &errb
 	runErr := cmd.Run()
-	ctx.Case(fmt.Sprintf("pool:%s|%d|%d|%v", c.Fn, c.Callers, c.Rounds, c.Reqs), c.Callers > 1)
+	ctx.Case(fmt.Sprintf("pool:%s%s|%d|%d|%v", c.Fn, strings.Join(c.DS, " "), c.Callers, c.Rounds, c.Reqs), c.Callers > 1)
 	ctx.Count(fmt.Sprintf("pool/callers=%s", bucket(c.Callers)))
 	var res poolResult
 	if runErr != nil || json.Unmarshal(out.Bytes(), &res) != nil {
@@ -692,7 +698,18 @@ func checkPool(ctx *core.Ctx, c poolCase) {
 		ctx.Crash("concurrent evaluations through the pool never crash or hang the process", "", c, detail)
 		return
 	}
+	if res.PoolLoad != "" {
+		ctx.SpecFail(clauseDecoLoad, "", c, "pool: "+res.PoolLoad, "single resolver: ok")
+		return
+	}
 	if res.LoadErr != "" {
+		if len(c.DS) > 0 && askEvald(ctx, "evald", c.DS, nil, c.Env).load == loadKind(res.LoadErr) {
+			// the prelude of a decorated script throws: neither resolver exists (whether the pool refuses it too is
+			// judged on the in-process cases, checkDeco)
+			ctx.Count("pool/decorated-script/load-throws")
+			ctx.TraceValidated()
+			return
+		}
 		ctx.Disagree("pool script loads", c, res.LoadErr, "ok")
 		return
 	}
@@ -710,27 +727,73 @@ func checkPool(ctx *core.Ctx, c poolCase) {
 	if len(res.Panics) > 0 {
 		ctx.Crash("concurrent evaluations through the pool never panic", "", c, strings.Join(res.Panics, "; "))
 	}
+	var decoSeq []string
+	var decoCands [][]string
+	if len(c.DS) > 0 {
+		ctx.Count("pool/decorated-script")
+		if c.Counter {
+			ctx.Count("pool/decorated-script/per-VM-counter")
+		}
+		decoSeq, decoCands = decoPoolModel(ctx, c, res.Calls+len(c.Reqs))
+		if decoSeq == nil {
+			ctx.Disagree("pool script loads", c, "ok", "load error in the model")
+			return
+		}
+	}
 	for i, q := range c.Reqs {
-		f := append([]string{"C14", "eval", c.Fn, "-"}, reqWire(q)...)
-		f = append(f, c.Env.wire()...)
-		model := ctx.Model.MustAsk(f...)
+		var model string
+		var cands []string
+		if len(c.DS) > 0 {
+			model, cands = strings.Replace(decoSeq[i], ":", " ", 1), nil
+			for _, a := range decoCands[i] {
+				cands = append(cands, strings.Replace(a, ":", " ", 1))
+			}
+			if contains(cands, "unmodelled") {
+				continue
+			}
+		} else {
+			f := append([]string{"C14", "eval", c.Fn, "-"}, reqWire(q)...)
+			f = append(f, c.Env.wire()...)
+			model = ctx.Model.MustAsk(f...)
+			cands = []string{res.Sequential[i]} // a plain tree keeps no state: the answers of the stand-alone resolver
+		}
 		if model == "unmodelled" {
 			continue
 		}
 		if res.Sequential[i] != model {
 			ctx.Disagree("FindProxyForURL = Model.C14.findProxy", c, fmt.Sprintf("req %d: %s", i, showAnswer(res.Sequential[i])), showAnswer(model))
 		}
-		if res.PoolSingle[i] != res.Sequential[i] {
-			ctx.SpecFail("the pool (one caller) gives the answers of a single resolver", "", c,
-				fmt.Sprintf("req %d: pool %s", i, showAnswer(res.PoolSingle[i])), "single resolver: "+showAnswer(res.Sequential[i]))
+		var want []string
+		candSet := make(map[string]bool, len(cands))
+		for _, a := range cands {
+			if !candSet[a] && len(want) < 8 {
+				want = append(want, showAnswer(a))
+			}
+			candSet[a] = true
 		}
-		if len(res.Concurrent[i]) != 1 || res.Concurrent[i][0] != res.Sequential[i] {
+		if len(candSet) > len(want) {
+			want = append(want, fmt.Sprintf("… (%d answers)", len(candSet)))
+		}
+		if !candSet[res.PoolSingle[i]] {
+			ctx.SpecFail("the pool (one caller) gives the answers of a single resolver", "", c,
+				fmt.Sprintf("req %d: pool %s", i, showAnswer(res.PoolSingle[i])), fmt.Sprintf("single resolver: %s; possible after earlier evaluations: %v", showAnswer(res.Sequential[i]), want))
+		}
+		bad := len(res.Concurrent[i]) == 0
+		for _, a := range res.Concurrent[i] {
+			if !candSet[a] {
+				bad = true
+			}
+		}
+		if !c.Counter && len(res.Concurrent[i]) != 1 {
+			bad = true
+		}
+		if bad {
 			var got []string
 			for _, a := range res.Concurrent[i] {
 				got = append(got, showAnswer(a))
 			}
 			ctx.SpecFail("evaluations issued concurrently through the pool give the same answers as if issued one at a time", "", c,
-				fmt.Sprintf("req %d (%s): concurrent callers got %v", i, q.URL, got), "one at a time: "+showAnswer(res.Sequential[i]))
+				fmt.Sprintf("req %d (%s): concurrent callers got %v", i, q.URL, got), fmt.Sprintf("one at a time: %v", want))
 		} else {
 			ctx.TraceValidated()
 		}
@@ -839,13 +902,16 @@ func genPoolCase(r *core.Rand, callers int, rounds int) poolCase {
 	}
 	t := build(r.Range(3, 6))
 	fn := entry{k: 'f', t: t}
-	return poolCase{Kind: "pool", Fn: fn.wire(), Script: scriptJS(fn, entry{k: '-'}), Reqs: reqs, Env: env, Callers: callers, Rounds: rounds}
+	return poolCase{Kind: "pool", Fn: fn.wire(), Script: scriptJS(fn, entry{k: '-'}), Reqs: reqs, Env: env, Callers: callers, Rounds: rounds, tree: t}
 }
 
 func Run(ctx *core.Ctx) {
 	ctx.SetRule("(a) decision-tree scripts of depth 0-4 over the 15 predefined helpers, printed as JavaScript, evaluated through NewProxyResolver(Pool)/FindProxyForURL with injected DNS table and own addresses; " +
 		"(b) direct helper calls with arguments from the agreed domain (host names, IPv4/IPv6 literals, dotted masks, CIDRs, globs of literals/./*/?; near misses) and a malformed stream (null/undefined/numbers); " +
-		"(c) result-list strings from the grammar and arbitrary ASCII through Proxies.All/First/URL; (d) 1-64 concurrent callers on the pool vs one-at-a-time answers. " +
+		"(c) result-list strings from the grammar and arbitrary ASCII through Proxies.All/First/URL; (d) 1-64 concurrent callers on the pool vs one-at-a-time answers, half of the scripts decorated; " +
+		"(e) decorated scripts: the trees wrapped in sloppy-mode ES5 forms (assignments to undeclared names, loops over an undeclared counter, per-VM counters and load-time constants, leaves returning through a global, " +
+		"the script's own versions of predefined helpers; spelt with `with`, duplicate parameter names, arguments.callee, arguments aliasing, this = global object, legacy octal literals, eval-introduced vars), 1-4 requests each " +
+		"evaluated one at a time on a stand-alone resolver (= the model's sequential answers) and through a pool (each answer = a single resolver's after some sub-sequence of the earlier requests; pool construction succeeds iff the resolver's does). " +
 		"Non-trivial: a tree with at least one condition, a helper call with at least one argument, a result list with a separator or space, a pool run with more than one caller; distinct = distinct canonical inputs")
 	ctx.Assume("the JavaScript engine (goja) and Go's net/netip, net.SplitHostPort, strings.TrimSpace are modelled, not verified")
 	for _, c := range core.LoadCorpus(ctx.Root, "C14") {
@@ -858,6 +924,15 @@ func Run(ctx *core.Ctx) {
 		r := ctx.Rng.Sub()
 		c := genEvalCase(r)
 		checkEval(ctx, c)
+		if i < 2 {
+			ctx.Sample(c)
+		}
+	}
+	nDeco := ctx.N(1500, 12000)
+	for i := 0; i < nDeco; i++ {
+		r := ctx.Rng.Sub()
+		c := genDecoCase(r)
+		checkDeco(ctx, c)
 		if i < 2 {
 			ctx.Sample(c)
 		}
@@ -902,6 +977,20 @@ func Run(ctx *core.Ctx) {
 			ctx.Sample(c)
 		}
 	}
+	// the same with decorated scripts (stateless, or with a per-VM call counter)
+	nDecoPool := ctx.N(12, 48)
+	for i := 0; i < nDecoPool; i++ {
+		r := ctx.Rng.Sub()
+		callers := callerSet[i%len(callerSet)]
+		if i >= len(callerSet) {
+			callers = r.Range(1, 64)
+		}
+		c := genDecoPoolCase(r, callers, ctx.N(8, 30))
+		checkPool(ctx, c)
+		if i == 1 {
+			ctx.Sample(c)
+		}
+	}
 }
 
 func Replay(ctx *core.Ctx, raw json.RawMessage) {
@@ -926,6 +1015,10 @@ func Replay(ctx *core.Ctx, raw json.RawMessage) {
 		var c poolCase
 		json.Unmarshal(raw, &c)
 		checkPool(ctx, c)
+	case "deco":
+		var c decoCase
+		json.Unmarshal(raw, &c)
+		checkDeco(ctx, c)
 	default:
 		core.Fatalf("C14: unknown case kind %q", k.Kind)
 	}
